@@ -13,12 +13,19 @@ driver for the import model (engine `imports`), over the generated graph.
   ns <dotted name>      → sorted names bound in that module (`-` when none / absent)
   stale <dotted name>   → `true` | `false`   region predicate of known finding D01c
   val <module> <ident>  → `unbound` | `obj` | `mod <module>`   what the identifier is bound to in the module
+  variant <module> absent|stub|importerror|notfoundother → `ok`   the same tree on a host where the optional
+                          module presents itself so (resets the state); `variant -` returns to the measured host
   nodes                 → number of nodes, size of the property's domain
 -/
 namespace Ioflo.Drv.Imports
 open Ioflo.Proto Ioflo.Imports
 
 def g : Graph := Gen.graph
+
+/-- driver state: the host variant of the graph in force, and the interpreter state -/
+structure DS where
+  g : Graph
+  s : State
 
 def modId? (name : String) : Option Mod := Gen.modNames.findIdx? (· == name)
 
@@ -64,41 +71,65 @@ def stateLine (s : State) : String :=
   let parts := ids.map (fun m => modName m ++ ":" ++ showNs s m)
   if parts.isEmpty then "-" else " ".intercalate parts
 
-def step (s : State) (line : String) : State × String :=
+def kind? : String → Option OptKind
+  | "absent" => some .absent
+  | "stub" => some .stub
+  | "importerror" => some .importError
+  | "notfoundother" => some .notFoundOther
+  | _ => none
+
+def step (d : DS) (line : String) : DS × String :=
+  let g := d.g
+  let s := d.s
+  let st (s' : State) : DS := ⟨g, s'⟩
   match words line with
-  | ["reset"] => (fresh g, "ok")
+  | ["reset"] => (st (fresh g), "ok")
+  | ["variant", "-"] => (⟨Gen.graph, fresh Gen.graph⟩, "ok")
+  | ["variant", name, kind] =>
+    match modId? name, kind? kind with
+    | some x, some k =>
+      -- no separate "stub" variant for a module the measured interpreter has (same rule as `optKinds`)
+      let allowed : Bool := match Gen.graph.baseNode? x with
+        | some nd => !(nd.exists_ && k == .stub)
+        | none => true
+      if allowed then
+        let g' := Gen.graph.withOpt x k
+        (⟨g', fresh g'⟩, "ok")
+      else (d, "bad-op")
+    | _, _ => (d, "bad-op")
   | ["load", name] =>
     match modId? name with
-    | none => (s, "bad-op")
+    | none => (d, "bad-op")
     | some m =>
       match importModule g s m with
-      | (s', none) => (s', "ok")
-      | (s', some err) => (s', "ERR " ++ excName err.exc ++ " " ++ modName err.mod ++ " " ++ toString err.line)
-  | ["state"] => (s, stateLine s)
+      | (s', none) => (st s', "ok")
+      | (s', some err) => (st s', "ERR " ++ excName err.exc ++ " " ++ modName err.mod ++ " " ++ toString err.line)
+  | ["state"] => (d, stateLine s)
   | ["present"] =>
     let ids := byName ((List.range g.nNodes).filter (fun m => s.isPresent m))
-    (s, if ids.isEmpty then "-" else " ".intercalate (ids.map modName))
+    (d, if ids.isEmpty then "-" else " ".intercalate (ids.map modName))
   | ["ns", name] =>
     match modId? name with
-    | none => (s, "bad-op")
+    | none => (d, "bad-op")
     | some m =>
       let l := sortedNames s m
-      (s, if l.isEmpty then "-" else " ".intercalate l)
+      (d, if l.isEmpty then "-" else " ".intercalate l)
   | ["stale", name] =>
     match modId? name with
-    | none => (s, "bad-op")
-    | some m => (s, toString (staleFrom g m))
-  | ["nodes"] => (s, toString g.nNodes ++ " " ++ toString g.domain.length)
+    | none => (d, "bad-op")
+    | some m => (d, toString (staleFrom g m))
+  | ["nodes"] => (d, toString g.nNodes ++ " " ++ toString g.domain.length)
   | ["val", name, ident] =>
     match modId? name, Gen.identNames.findIdx? (· == ident) with
     | some m, some n =>
       match s.val g m n with
-      | none => (s, "unbound")
-      | some .obj => (s, "obj")
-      | some (.mod t) => (s, "mod " ++ modName t)
-    | _, _ => (s, "bad-op")
-  | _ => (s, "bad-op")
+      | none => (d, "unbound")
+      | some .obj => (d, "obj")
+      | some (.mod t) => (d, "mod " ++ modName t)
+    | _, _ => (d, "bad-op")
+  | _ => (d, "bad-op")
 
 end Ioflo.Drv.Imports
 
-def main : IO Unit := Ioflo.Proto.loop Ioflo.Drv.Imports.step (Ioflo.Imports.fresh Ioflo.Drv.Imports.g)
+def main : IO Unit :=
+  Ioflo.Proto.loop Ioflo.Drv.Imports.step ⟨Ioflo.Drv.Imports.g, Ioflo.Imports.fresh Ioflo.Drv.Imports.g⟩
